@@ -275,10 +275,10 @@ func readReply(conn net.Conn) []byte {
 }
 
 func readReplyErr(conn net.Conn) ([]byte, error) {
-	rep, rerr := srvx.ReadN(conn, 9, 2*time.Second)
+	rep, rerr := srvx.ReadN(conn, 9, 5*time.Second)
 	if rerr == nil && len(rep) == 9 {
 		if n := 6 + int(rep[4])<<8 + int(rep[5]); n > 9 && n <= 300 {
-			more, _ := srvx.ReadN(conn, n-9, 2*time.Second)
+			more, _ := srvx.ReadN(conn, n-9, 5*time.Second)
 			rep = append(rep, more...)
 		}
 	}
@@ -496,7 +496,14 @@ func runSeq(c *Case, r *mon.Rec, rng *rand.Rand) {
 	dev := simdev.New(uint64(c.Seed), "srv")
 	modes := map[uint16]string{}
 	l := srvx.NewMemListener()
-	s := &server.Server{OnErrorFunc: func(error) {}, WriteTimeout: 300 * time.Millisecond} // wide enough not to be scheduling noise; the "slow" handler mode exceeds it
+	// every fourth sequence runs with a 300 ms write timeout and may draw the "slow" handler mode (400 ms), the others use
+	// 2 s and never draw it: a write timeout of a few hundred milliseconds is already within reach of scheduling noise on
+	// a heavily loaded machine
+	slowCase := c.Seed%4 == 0
+	s := &server.Server{OnErrorFunc: func(error) {}, WriteTimeout: 2 * time.Second}
+	if slowCase {
+		s.WriteTimeout = 300 * time.Millisecond
+	}
 	if c.Seed%2 == 0 {
 		s.OnErrorFunc = nil // default configuration: the server logs connection errors itself
 	}
@@ -533,7 +540,7 @@ func runSeq(c *Case, r *mon.Rec, rng *rand.Rand) {
 		used[f.tid] = true
 		f.mode = "dev"
 		if f.class == "valid" {
-			f.mode = []string{"dev", "dev", "typed-error", "generic-error", "panic-string", "panic-error", "panic-nilmap", "slow", "mutate-then-error", "foreign-exception"}[rng.Intn(10)]
+			f.mode = []string{"dev", "dev", "typed-error", "generic-error", "panic-string", "panic-error", "panic-nilmap", "mutate-then-error", "foreign-exception", "slow"}[rng.Intn(map[bool]int{true: 10, false: 9}[slowCase])]
 		}
 		modes[f.tid] = f.mode
 		steps = append(steps, step{f: f})
